@@ -1,5 +1,5 @@
 (** C14 - The Descriptor mirrors the type definition exactly. *)
-From Plenc Require Import Base Varint Wire JsonAny Codec Descriptor DescProofs.
+From Plenc Require Import Base Varint Wire JsonAny Codec Registry Descriptor DescProofs RegistryWf.
 Open Scope N_scope.
 
 (** one element per encoded field, in declaration order, carrying the field's
@@ -10,6 +10,21 @@ Theorem C14_struct_fields : forall nm n fs d, descriptor_of (CStruct nm n fs) = 
   Forall2 (fun f e => exists d0, descriptor_of (f_codec f) = Ok d0 /\ e = with_field (f_index f) (f_name f) d0) fs (d_elems d).
 Proof. exact struct_descriptor_fields. Qed.
 Print Assumptions C14_struct_fields.
+
+(** from the Go type definition to the Descriptor: for every struct type plenc
+    accepts, the Descriptor carries the struct's type name and, per encoded
+    field in declaration order, the index of its plenc tag and its name - the
+    json tag's name (up to the first comma) when there is one, otherwise the Go
+    field name; unexported fields and fields tagged "-" do not appear
+    ([field_specs] reads exactly that off the definition) *)
+Theorem C14_mirrors_definition : forall C E f id sd c d,
+  lookup (regs_of C) (TStruct id) [] = None ->
+  nth_error E (N.to_nat id) = Some sd ->
+  codec_for C E (S f) (TStruct id) [] = Ok c -> descriptor_of c = Ok d ->
+  d_type d = FTStruct /\ d_typename d = sd_name sd /\
+  map (fun e => (d_index e, d_name e)) (d_elems d) = field_specs (sd_fields sd).
+Proof. exact struct_descriptor_mirrors_definition. Qed.
+Print Assumptions C14_mirrors_definition.
 
 (** the field type matches the wire encoding of the codec, incl. the
     map / timestamp logical types *)
